@@ -80,6 +80,14 @@ func genCase(t *rapid.T) Case {
 	c.Version = rapid.SampledFrom([]int{0, 0, 1, 2}).Draw(t, "version")
 	c.Human = rapid.Bool().Draw(t, "human")
 	c.InStream = rapid.SampledFrom([]bool{false, false, true}).Draw(t, "instream")
+	for k := rapid.SampledFrom([]int{0, 1, 2, 3}).Draw(t, "nedits"); k > 0; k-- {
+		c.Edits = append(c.Edits, Edit{
+			Kind: rapid.IntRange(0, 2).Draw(t, "editkind"),
+			I:    rapid.IntRange(0, 5000).Draw(t, "edit-i"),
+			J:    rapid.IntRange(0, 5000).Draw(t, "edit-j"),
+		})
+	}
+	c.EditDirect = len(c.Edits) > 0 && rapid.Bool().Draw(t, "editdirect")
 	return c
 }
 
@@ -109,7 +117,9 @@ func classify(c *Case) (bool, []string) {
 	for _, k := range []string{"empty-name-key", "non-ascii-key", "nul-in-key", "prefix-neighbours", "adjacent-keys",
 		"last-byte-differs", "min-int64-key", "max-int64-key", "negative-key", "zero-key", "consecutive-ints",
 		"value-null", "value-ref", "value-null-inside", "value-ref-inside",
-		"all-repeated-with-kids", "all-stopped-in-second-leaf"} {
+		"all-repeated-with-kids", "all-stopped-in-second-leaf",
+		"inmemory-constructed-edited", "inmemory-extracted-edited", "inmemory-edit-rename", "inmemory-edit-swap",
+		"inmemory-edit-move", "inmemory-edited-then-embedded"} {
 		add(o.flags[k], k)
 	}
 	// the rule of DESIGN.md: two levels and an absent-key probe which falls
